@@ -94,11 +94,12 @@ type histOpts struct {
 }
 
 type history struct {
-	ops     []*op
-	entries []aoflog.Entry
-	dir     string
-	stderr  string
-	crashed string
+	logMalformed string
+	ops          []*op
+	entries      []aoflog.Entry
+	dir          string
+	stderr       string
+	crashed      string
 }
 
 var tokRe = regexp.MustCompile(`^T(\d+)x(\d+)$`)
@@ -117,6 +118,10 @@ func nextCmd(g *kmodel.Gen, client int, writer bool, seq int, expiry bool) ([]st
 				if strings.ToLower(cmd[i]) == "field" && cmd[i+1] == "tok" {
 					cmd[i+2] = tok
 				}
+			}
+			if len(cmd) > 6 && g.R.Intn(2) == 0 {
+				// a numeric field for the WHERE reads
+				cmd = append(append(append([]string{}, cmd[:6]...), "FIELD", "n", strconv.Itoa(g.R.Intn(6))), cmd[6:]...)
 			}
 			if expiry && g.R.Intn(5) == 0 {
 				// objects that expire soon, are re-SET without a deadline, persisted or
@@ -141,7 +146,17 @@ func nextCmd(g *kmodel.Gen, client int, writer bool, seq int, expiry bool) ([]st
 			}
 		case "fset":
 			tok = fmt.Sprintf("T%dx%d", client, seq)
-			cmd = append(cmd, "tok", tok)
+			cmd = append(cmd, "tok", tok, "n", strconv.Itoa(g.R.Intn(6)))
+		case "scan":
+			// reads through the WHERE evaluators (field range and expression forms)
+			if len(cmd) == 2 || (len(cmd) == 3 && (cmd[2] == "IDS" || cmd[2] == "COUNT")) {
+				switch g.R.Intn(4) {
+				case 0:
+					cmd = append([]string{"SCAN", cmd[1], "WHERE", "n", strconv.Itoa(g.R.Intn(3)), strconv.Itoa(3 + g.R.Intn(3))}, cmd[2:]...)
+				case 1:
+					cmd = append([]string{"SCAN", cmd[1], "WHERE", "n " + []string{">", ">=", "<", "<=", "==", "!="}[g.R.Intn(6)] + " " + strconv.Itoa(g.R.Intn(6))}, cmd[2:]...)
+				}
+			}
 		case "jset":
 			if strings.HasPrefix(cmd[3], "coordinates") {
 				continue
@@ -298,7 +313,13 @@ func runHistory(ctx *core.Ctx, bin string, o histOpts) (*history, error) {
 	}
 	entries, boundary, ok := aoflog.Parse(b)
 	if !ok || boundary != len(b) {
-		return nil, fmt.Errorf("log does not parse cleanly (ok=%v boundary=%d len=%d)", ok, boundary, len(b))
+		// after a clean stop the log must be a sequence of whole commands; anything
+		// else means two writers interleaved their bytes
+		lo := max(0, boundary-60)
+		hi := min(len(b), boundary+120)
+		h.logMalformed = fmt.Sprintf("appendonly.aof is not a sequence of whole commands after a clean stop (parses up to byte %d of %d): ...%q...", boundary, len(b), b[lo:hi])
+		h.stderr = s.StderrTail(2000)
+		return h, nil
 	}
 	h.entries = entries
 	h.stderr = s.StderrTail(2000)
@@ -365,6 +386,9 @@ type verdict struct {
 
 // checkLogOrder is the linear-time checker of DESIGN.md C07.
 func checkLogOrder(h *history, writers int, stats map[string]int64) *verdict {
+	if h.logMalformed != "" {
+		return &verdict{"log-malformed", h.logMalformed, nil}
+	}
 	ops := h.ops
 	byTok := map[string]*op{}
 	perClient := map[int][]*op{} // tokenless write ops per writer client, issue order
